@@ -49,6 +49,17 @@ def install_taps():
             sample._verif_orig = orig
             return sample
         cls.sample = make(orig)
+    # probe: the fallback branch of UnitCubeEllipsoidMixture.compute (it calls
+    # UnitCube.compute with the point array instead of a dimension)
+    orig_compute = UnitCube.compute.__func__
+
+    def compute(cls, n_dim, *a, **k):
+        w = CURRENT['world']
+        if w is not None and not isinstance(n_dim, (int, np.integer)):
+            w.probes['mixture_fallback_branch'] = w.probes.get(
+                'mixture_fallback_branch', 0) + 1
+        return orig_compute(cls, n_dim, *a, **k)
+    UnitCube.compute = classmethod(compute)
     _TAPS['installed'] = True
 
 
